@@ -393,6 +393,9 @@ pub assume_specification<T, F> [<[T]>::sort_by] (s: &mut [T], f: F)
         final(s)@.len() == old(s)@.len(),
         sorted_by_closure(final(s)@, f);
 
+// [A-ordering-eq] derive(PartialEq) on std::cmp::Ordering
+pub assume_specification [<Ordering as PartialEq>::eq](a: &Ordering, b: &Ordering) -> (r: bool)
+    ensures r == (*a == *b);
 // [A-unwrap-or-else] Result::unwrap_or_else
 pub assume_specification<T, E, F> [std::result::Result::<T, E>::unwrap_or_else] (res: std::result::Result<T, E>, f: F) -> (o: T)
     where F: std::ops::FnOnce(E,) -> T + std::marker::Destruct,
